@@ -584,8 +584,8 @@ func (c *specCtx) call(x *SCall) Val {
 			return c.intV("0")
 		}
 		fid, ok := x.Args[0].(*SIdent)
-		if !ok || vc.eng.ufuns[fid.Name] == nil {
-			return c.fail("sum: first argument must be a ghost fn")
+		if !ok {
+			return c.fail("sum: first argument must be a ghost fn or a ghost map")
 		}
 		sv := c.eval(x.Args[1])
 		n := c.eval(x.Args[2])
@@ -594,6 +594,18 @@ func (c *specCtx) call(x *SCall) Val {
 			if _, isSl := sv.Ty.Underlying().(*types.Slice); isSl {
 				arr, _, _ = vc.sliceParts(sv)
 			}
+		}
+		if vc.eng.ufuns[fid.Name] == nil {
+			// state-dependent measure: a ghost map ref -> int, or a one-parameter pred over the heap
+			if g, isGhost := vc.eng.specs.Ghosts[fid.Name]; isGhost && vc.eng.specSort(g.Type) == "(Array Int Int)" {
+				vc.needPsumG()
+				return c.intV(fmt.Sprintf("(psumg %s %s %s)", vc.ghostGet(c.cur, fid.Name), arr, n.S))
+			}
+			if p, isPred := vc.eng.specs.Preds[fid.Name]; isPred && len(p.Params) == 1 {
+				vc.needPsumG()
+				return c.intV(fmt.Sprintf("(psumg %s %s %s)", vc.measureArray(c.cur, fid.Name), arr, n.S))
+			}
+			return c.fail("sum: first argument must be a ghost fn, a ghost map[ref]int or a one-parameter pred")
 		}
 		vc.needPsum(fid.Name)
 		return c.intV(fmt.Sprintf("(psum_%s %s %s)", fid.Name, arr, n.S))
@@ -744,6 +756,9 @@ func (c *specCtx) call(x *SCall) Val {
 	case "fresh":
 		v := c.eval(x.Args[0])
 		return c.boolV(fmt.Sprintf("(and (> %s 0) (not (select %s %s)) (select %s %s))", v.S, c.old.alloc, v.S, c.cur.alloc, v.S))
+	case "allocatedBefore":
+		v := c.eval(x.Args[0])
+		return c.boolV(fmt.Sprintf("(select %s %s)", c.old.alloc, v.S))
 	case "allocated":
 		v := c.eval(x.Args[0])
 		return c.boolV(fmt.Sprintf("(select %s %s)", c.cur.alloc, v.S))
@@ -975,21 +990,68 @@ func (vc *VC) needPsum(f string) {
 	vc.noteAssumption("prefix-sum axioms for measure " + f + " (definition, monotonicity for non-negative measures, update lemma; proved by induction in /verif/lemmas)")
 }
 
-// sumFact adds ground consequences of the sum lemmas for every measure in use. Terms are built by mk(psumName).
-func (vc *VC) sumFacts(st *State, elemSort string, mk func(ps func(arr, n string) string, f string) []string) {
+// sumFacts adds ground consequences of the sum lemmas for every measure in use. ps builds a prefix-sum term, fv applies the
+// measure to one element.
+func (vc *VC) sumFacts(st *State, elemSort string, mk func(ps func(arr, n string) string, fv func(v string) string) []string) {
 	if elemSort != "Int" {
 		return
 	}
 	for _, f := range vc.eng.measures {
-		vc.needPsum(f)
-		name := "psum_" + f
-		ps := func(arr, n string) string { return fmt.Sprintf("(%s %s %s)", name, arr, n) }
-		for _, fact := range mk(ps, f) {
-			vc.assume(st, fact)
+		if vc.eng.ufuns[f] != nil {
+			vc.needPsum(f)
+			name := "psum_" + f
+			ff := f
+			ps := func(arr, n string) string { return fmt.Sprintf("(%s %s %s)", name, arr, n) }
+			fv := func(v string) string { return fmt.Sprintf("(uf_%s %s)", ff, v) }
+			for _, fact := range mk(ps, fv) {
+				vc.assume(st, fact)
+			}
+			continue
+		}
+		if p, ok := vc.eng.specs.Preds[f]; ok && len(p.Params) == 1 {
+			vc.needPsumG()
+			E := vc.measureArray(st, f)
+			ps := func(arr, n string) string { return fmt.Sprintf("(psumg %s %s %s)", E, arr, n) }
+			fv := func(v string) string { return fmt.Sprintf("(nn (select %s %s))", E, v) }
+			for _, fact := range mk(ps, fv) {
+				vc.assume(st, fact)
+			}
+			continue
+		}
+		if g, ok := vc.eng.specs.Ghosts[f]; ok && vc.eng.specSort(g.Type) == "(Array Int Int)" {
+			vc.needPsumG()
+			E := vc.ghostGet(st, f)
+			ps := func(arr, n string) string { return fmt.Sprintf("(psumg %s %s %s)", E, arr, n) }
+			fv := func(v string) string { return fmt.Sprintf("(nn (select %s %s))", E, v) }
+			for _, fact := range mk(ps, fv) {
+				vc.assume(st, fact)
+			}
 		}
 	}
 }
 
+// needPsumG: prefix sums over a state-dependent measure E : ref -> int (negative values count as 0)
+func (vc *VC) needPsumG() {
+	if vc.declared["psumg"] {
+		return
+	}
+	vc.declareFun("psumg", []string{"(Array Int Int)", "(Array Int Int)", "Int"}, "Int")
+	vc.declareFun("psumg_diff", []string{"(Array Int Int)", "(Array Int Int)", "(Array Int Int)", "Int"}, "Int")
+	vc.declared["nn"] = true
+	vc.decls = append(vc.decls, "(define-fun nn ((x Int)) Int (ite (< x 0) 0 x))")
+	ax := []string{
+		"(forall ((E (Array Int Int)) (a (Array Int Int))) (! (= (psumg E a 0) 0) :pattern ((psumg E a 0))))",
+		"(forall ((E (Array Int Int)) (a (Array Int Int)) (i Int)) (! (=> (>= i 0) (= (psumg E a (+ i 1)) (+ (psumg E a i) (nn (select E (select a i)))))) :pattern ((psumg E a i) (select a i))))",
+		"(forall ((E (Array Int Int)) (a (Array Int Int)) (i Int) (j Int)) (! (=> (and (<= 0 i) (<= i j)) (<= (psumg E a i) (psumg E a j))) :pattern ((psumg E a i) (psumg E a j))))",
+		"(forall ((E (Array Int Int)) (a (Array Int Int)) (k Int) (v Int) (n Int)) (! (= (psumg E (store a k v) n) (+ (psumg E a n) (ite (and (<= 0 k) (< k n)) (- (nn (select E v)) (nn (select E (select a k)))) 0))) :pattern ((psumg E (store a k v) n))))",
+		// frame: two measures that agree on the first n elements of a give the same prefix sum
+		"(forall ((E (Array Int Int)) (F (Array Int Int)) (a (Array Int Int)) (n Int)) (! (or (= (psumg E a n) (psumg F a n)) (and (<= 0 (psumg_diff E F a n)) (< (psumg_diff E F a n) n) (not (= (select E (select a (psumg_diff E F a n))) (select F (select a (psumg_diff E F a n))))))) :pattern ((psumg E a n) (psumg F a n))))",
+	}
+	for _, a := range ax {
+		vc.globalAxioms = append(vc.globalAxioms, "(assert "+a+")")
+	}
+	vc.noteAssumption("prefix-sum axioms for state-dependent measures (definition, monotonicity, update and frame lemmas; proved by induction in /verif/lemmas)")
+}
 
 // errAsTerm: "errors.As(err, &target) with target of type t succeeds"
 func (vc *VC) errAsTerm(st *State, errS string, t types.Type) string {
@@ -1002,4 +1064,31 @@ func (vc *VC) errAsTerm(st *State, errS string, t types.Type) string {
 		vc.globalAxioms = append(vc.globalAxioms, fmt.Sprintf("(assert (not (%s 0)))", fn))
 	}
 	return fmt.Sprintf("(%s %s)", fn, errS)
+}
+
+
+// measureArray: the array r -> P(r) of a one-parameter integer pred P evaluated in state st (memoised per distinct heap view)
+func (vc *VC) measureArray(st *State, pred string) string {
+	p := vc.eng.specs.Preds[pred]
+	c := &specCtx{vc: vc, cur: st, old: vc.entry, bound: map[string]Val{}}
+	var pt types.Type
+	if t := vc.eng.lookupType(p.Params[0].Type); t != nil {
+		pt = t
+	}
+	c.bound[p.Params[0].Name] = Val{S: "r_m", Ty: pt, Sort: "Int"}
+	c.env = map[string]Val{}
+	body := c.eval(p.Body)
+	key := pred + "|" + body.S
+	if vc.measureMemo == nil {
+		vc.measureMemo = map[string]string{}
+	}
+	if e, ok := vc.measureMemo[key]; ok {
+		return e
+	}
+	e := vc.fresh("M_"+pred, "(Array Int Int)")
+	d := fmt.Sprintf("(assert (forall ((r_m Int)) (! (= (select %s r_m) %s) :pattern ((select %s r_m)))))", e, body.S, e)
+	vc.defs = append(vc.defs, d)
+	vc.defOf[e] = d
+	vc.measureMemo[key] = e
+	return e
 }
